@@ -81,6 +81,9 @@ func (env *SpecEnv) eval(e *SExpr) *Value {
 			return scalar(Neg(x.S), x.T)
 		case "*":
 			// *p: the cell a pointer to a non-struct value (a named map, an int, ...) points to
+			if x.Alias != nil {
+				return env.st.load(x.Alias) // &local: the pointer is an alias of that variable
+			}
 			pt, ok := x.T.Underlying().(*types.Pointer)
 			if !ok {
 				specFail("* of a non-pointer")
